@@ -322,7 +322,8 @@ class Process(StateMachine, persistence.Savable, metaclass=ProcessStateMachineMe
         """
         self._cleanups = []  # a list of functions to be ran on terminated
 
-        if self._communicator is not None:
+        # (a process loaded in a terminal state will never be closed, which is what ends these subscriptions: it does not subscribe)
+        if self._communicator is not None and not (self._state is not None and self.has_terminated()):
             try:
                 identifier = self._communicator.add_rpc_subscriber(self.message_receive, identifier=str(self.pid))
                 self.add_cleanup(functools.partial(self._communicator.remove_rpc_subscriber, identifier))
